@@ -30,6 +30,18 @@ pub(crate) fn queue_head<N: Next>(q: &Queue<N>) -> Option<Key> {
     q.indices.map(|i| i.head)
 }
 
+/// unreachability stubs for the record-release path (`ref_count >= 1` / stream not
+/// closed in the query): because they panic, a pass also shows they were unreachable.
+impl<'a> Ptr<'a> {
+    // (inherent methods so that the impl lifetime is early-bound like the originals')
+    pub(crate) fn verif_stub_remove_unreachable(self) -> StreamId {
+        panic!("UNREACHABLE-STUB store::Ptr::remove")
+    }
+    pub(crate) fn verif_stub_unlink_unreachable(&mut self) {
+        panic!("UNREACHABLE-STUB store::Ptr::unlink")
+    }
+}
+
 /// unreachability stub for `Store::find_mut`
 pub(crate) fn stub_find_mut_unreachable<'a>(_s: &'a mut Store, _id: &StreamId) -> Option<Ptr<'a>> {
     panic!("UNREACHABLE-STUB Store::find_mut")
